@@ -46,6 +46,10 @@ def zeroCmd : Cmd → Bool
   | .tru | .echo _ | .assign _ _ | .setE _ | .setPF _ | .trapExit _ | .fn _ _ | .brk _ | .cont _ => true
   | _ => false
 
+def partNoStatus : Part → Bool
+  | .status => false
+  | _ => true
+
 /-- Trap actions of the supported fragment: `echo`, `true`. -/
 def simpleTrapStmt : Stmt → Bool
   | .mk false (.echo _) => true
@@ -122,7 +126,9 @@ mutual
     -- [finding C26-subshell-errexit-ignored]
     | .assignSub _ p => !p.isNil && !(k.e && (k.ign || k.unk)) && supProg (subCtx k) false p
     | .subsh p => !p.isNil && !(k.e && (k.ign || k.unk)) && supProg (subCtx k) false p
-    | .echoSub _ p _ => !p.isNil && !(k.e && (k.ign || k.unk)) && supProg (subCtx k) false p
+    -- [finding C26-status-after-cmdsubst] no `$?` after the substitution in the same word
+    | .echoSub _ p w2 =>
+      !p.isNil && !(k.e && (k.ign || k.unk)) && supProg (subCtx k) false p && w2.all partNoStatus
     | .block p => !p.isNil && supProg k true p
     | .and x y => supStmt { k with ign := true, tl := headFalse k.tl } x && supStmt k y
     | .or x y => supStmt { k with ign := true, tl := headFalse k.tl } x && supStmt k y
